@@ -2,6 +2,8 @@ import OxiVerif.Model.Serializer
 import OxiVerif.Model.ObjParser
 import OxiVerif.Model.ContentTokenizer
 import OxiVerif.Model.C18
+import OxiVerif.Model.C09
+import OxiVerif.Model.C03
 /-!
 # C02 — model of "write a document, read it back" (builder b-c02)
 
@@ -710,9 +712,17 @@ def expectParsed : XOp → Model.CT.Parsed
   | .showText bs => ⟨[84, 106], [.str bs]⟩
   | .xobj n => ⟨[68, 111], [.name n]⟩
 
+/-- the decimal text of the number a faithful object parser returns for `Object::Real` of an
+    authored token (`C09.readBackReal`: an integer when the trimmed `{:.6}` text is one) -/
+def mbTok (t : Tok) : Tok :=
+  match C09.readBackReal (fmtFix 6 t) with
+  | .int i => showInt i
+  | .real t' => t'
+  | _ => []
+
 /-- the value the model reader returns for a page the model writer wrote -/
 def normPage (p : PageD) : PageR :=
-  { mediaBox := [zeroTok, zeroTok, p.w, p.h].map (fun t => Model.trimReal (fmtFix 6 t)),
+  { mediaBox := [zeroTok, zeroTok, p.w, p.h].map mbTok,
     rot := pageRot 0 p.ops,
     ops := (emitOps p).map expectParsed,
     imgs := (imagesOf p.ops).map fun e =>
@@ -726,5 +736,33 @@ def norm (d : Doc) (extra : List (Bytes × Obj)) : DocR :=
                              extra.filter (fun e => !(d.info.map (·.1)).contains e.1)) with
       | some (.str s) => some (key k, s)
       | _ => none }
+
+/-! ## the file (layout = C03's model of `write_object` / xref / trailer) -/
+
+def toC03Body (xmp : C03.Body) : WBody → C03.Body
+  | .plain v => .plain (ser v)
+  | .stream d raw _ => .stream (d.map fun e => (e.1, ser e.2)) raw
+  | .xmp => xmp
+
+/-- `write_document`: the bytes of the file.  `xmp` = the XMP metadata stream (not modelled),
+    `perm` = hash order of the cross-reference stream dictionary (sorted since /repo 8d436ce0),
+    object streams only together with a cross-reference stream (/repo 4d9cdfbe) -/
+def write (cfg : Cfg) (z : Bytes → Bytes) (perm : List C03.DictE → List C03.DictE) (xmp : C03.Body)
+    (version : Bytes) (extra : List (Bytes × Obj)) (d : Doc) : Bytes :=
+  let objs := buildObjects cfg z extra d
+  C03.layout { xrefStreams := cfg.xref, objStreams := cfg.objstm && cfg.xref, compress := cfg.compress } z perm
+    { version := version, objs := objs.map (fun o => { id := o.id, body := toC03Body xmp o.body }),
+      root := 1, info := 3, nextId := 4 + 2 * d.pages.length + 1 }
+
+/-- reading a file: `fileGraph` = cross-reference data + object parser + stream decoding (the
+    part of the reader below the document level), then `readDoc` from `/Root` 1, `/Info` 3 -/
+def read (fileGraph : Bytes → Option Graph) (file : Bytes) : Except RErr DocR :=
+  match fileGraph file with
+  | none => .error .noRoot
+  | some g => readDoc g 1 (some 3)
+
+/-- the authored page as a reader's value: boxes, rotation, the operators of the authoring calls
+    in CALL order (as the parsed operators a faithful content parser returns), images -/
+def observedPage (p : PageD) : PageR := { normPage p with ops := (specOps p).map expectParsed }
 
 end OxiVerif.C02
